@@ -3,7 +3,7 @@
    are exactly the pairs (dbid of p, dbid of c) with a[p] = Some c and its courses exactly the problem's courses (Cde.write_regs,
    Cde.write_courses; the real files are compared with these and checked by Cde.import_okb inside Coq on every run). *)
 From Coq Require Import List ZArith Lia Bool Arith.
-Require Import HP1 Cao1 Cao3 Json Cde CdeThms.
+Require Import HP1 Cao1 Cao3 Json Cde CdeThms CdeWriteOk.
 Import ListNotations.
 Open Scope nat_scope.
 
@@ -25,5 +25,18 @@ Proof.
   - intros c p. apply (inactive_empty courses parts K a H).
 Qed.
 
-Check C05.
+(* at FILE level: for the problem (ps, cs) the reader built, with pairwise distinct registration and course ids, the import file that the
+   writer model produces from ANY hard-feasible assignment passes Cde.import_okb -- the executable check that is evaluated inside Coq on
+   every import file the real binary writes (ids of the problem only, each once; every assigned registration in a course marked as
+   taking place that the person chose or instructs; active courses within their limits counting only non-instructors; nobody in a
+   cancelled course; fixed courses active; every course of the problem mentioned) *)
+Theorem C05_file : forall ps cs K a,
+  NoDup (map rp_dbid ps) -> NoDup (map rc_dbid cs) ->
+  HardOK_K (map to_course cs) (map to_part ps) K a ->
+  (forall c, K c = true -> c < nc (map to_course cs) /\ c_fixed (crs (map to_course cs) c) = false) ->
+  import_okb ps cs (write_regs a ps cs) (write_courses a cs) = true.
+Proof. intros ps cs K a NDp NDc H HK. apply (written_file_ok ps cs NDp NDc K a H HK). Qed.
+
+Check C05_file. Check C05.
 Print Assumptions C05.
+Print Assumptions C05_file.
